@@ -268,7 +268,7 @@ func partW(c *lib.Ctx, base string) func() {
 		WSpec{DirExists: true, Old: sp("to be emptied"), OldMode: 0o755, Chunks: nil, Mode: 0o644},
 		WSpec{DirExists: true, Old: sp("short"), OldMode: 0o444, Chunks: strs(big, big[:100]), Mode: 0o640},
 	)
-	nrand := c.Scale(2, 40)
+	nrand := c.Scale(1, 40)
 	for i := 0; i < nrand; i++ {
 		r := c.Rng.Fork()
 		w := WSpec{DirExists: r.Chance(3, 4), Mode: lib.Pick(r, []uint32{0, 0o644, 0o600, 0o755, 0o444})}
@@ -1398,7 +1398,7 @@ func partP(c *lib.Ctx, base string) {
 		}
 		plans = append(plans, repoPlan{replay.Spec, jobs, c.Rng.Fork()})
 	} else {
-		nrepos := c.Scale(4, 40)
+		nrepos := c.Scale(3, 40)
 		for i := 0; i < nrepos; i++ {
 			r := c.Rng.Fork()
 			adv := 0
